@@ -6,7 +6,7 @@ from ..common import PropertyViolation, HarnessBound
 from .. import spytrace
 from .c19 import first_diff
 
-CLOCKS = ["fine", "coarse", "coarse_long", "constant"]
+CLOCKS = ["fine", "coarse", "coarse_long", "constant", "backwards", "stepped_back", "erratic"]
 
 
 class C21(Prop):
@@ -18,7 +18,7 @@ class C21(Prop):
           "the spy callback reacts to entry/exit lines by scribbling on the chart), "
           "under a generated clock substituted for datetime.now inside miros.hsm: strictly "
           "increasing, coarse (advances every 7th or 40th reading, so several steps share a "
-          "timestamp) or constant. Oracle: the live-spy callback stream equals the concatenation "
+          "timestamp), constant, running backwards, set back two seconds every fifth reading, or in no order at all. Oracle: the live-spy callback stream equals the concatenation "
           "of every step's spy log (as C19 computes it) and the live-trace callback stream equals "
           "one line per new trace record (as C20 computes it), each exactly once and in order. "
           "Non-trivial: live trace is on and >=2 transitions happened while the clock returned the same timestamp; "
@@ -27,7 +27,7 @@ class C21(Prop):
           "writer thread; the same oracle applies after every settle.")
   assumptions = [
     "the clock is substituted by rebinding miros.hsm.stdlib_datetime to a datetime subclass",
-    "a next_rtc/complete_circuit on an empty queue is not a step and is not generated",
+    "a next_rtc on an empty queue dispatches nothing: its step log is the queue reflection line alone (a complete_circuit on an empty queue does nothing)",
   ]
 
   def strategy(self, tier):
